@@ -62,6 +62,7 @@ use std::sync::Arc;
 mod cases;
 pub mod dynfits;
 pub mod pager;
+mod rowsmeta;
 mod sessbind;
 mod types;
 
